@@ -47,7 +47,7 @@ def main():
         caught = []
         for p in props:
             t0 = time.time()
-            env = dict(os.environ, VERIF_REPO=wt)
+            env = dict(os.environ, VERIF_REPO=wt, VERIF_STOP_FIRST="1")
             cmd = [sys.executable, os.path.join(VERIF, "check.py"), "--property", p, "--tier", a.tier, "--no-evidence"]
             if a.runs:
                 cmd += ["--runs", a.runs]
